@@ -10,6 +10,7 @@ from .fam_proxy import Fsrv, Proxy, Psess
 from .fam_dmn import Dmn
 from .fam_shut import Shut
 from .fam_kern import Kern
+from .fam_race import Race
 
 PROPS = {}
 
@@ -150,6 +151,16 @@ KERN_TB = ["tools/uapi_gen.py + cc + /usr/include/linux/vhost.h, vhost_types.h (
            "the harness's ioctl/open64 interposition (symbols defined in the executable take precedence over libc)"]
 reg(id="C19", props="Props/C19.v", proof_files=["Proofs/KernProofs.v"], families=[Kern()], rule=KERN_RULE, trusted_base=KERN_TB,
     assumptions=["the C compiler's sizeof/offsetof and macro expansion are the kernel ABI"])
+RACE_RULE = ("family race: one ring, one worker, a real daemon built with hold points (cfg(vhost_verif)) at worker:after_epoll (event taken out of epoll_wait, kick "
+             "not yet read), worker:after_read (kick read, handler not yet entered), ctl:after_state and ctl:after_epoll (inside SET_VRING_ENABLE / GET_VRING_BASE); "
+             "schedules as token programs (arm/wait/release a point, kick, start/join a control message, settle through a probe listener) for disable/enable, "
+             "stop/restart, reset/enable and their combination: worker held at either point while the disabling message completes (with and without a further kick, "
+             "released before or after the enabling message), control thread held at either point while kicks arrive and the worker runs, both held; the observation is "
+             "the ordered log of kicks, control starts, replies and handler entries plus the kick counter left; judged by Spec/RaceSpec.v")
+RACE_TB = ["hand model Model/Race.v of event_loop.rs run()/handle_event, vring.rs read_kick and the enable/stop/reset control paths, tied by family race",
+           "Spec/RaceSpec.v: my transcription of C12 over schedule logs", "the hold-point hooks (vhost::vhost_user::verif_hooks::hold) park the thread and change nothing else"]
+reg(id="C12", props="Props/C12.v", proof_files=["Proofs/RaceBase.v", "Proofs/RaceProofs.v"], families=[Race()], rule=RACE_RULE, trusted_base=RACE_TB,
+    assumptions=DMN_ASSUME)
 reg(id="BE-DEV",
     props="Props/C20.v",
     families=[Be()],
